@@ -203,11 +203,13 @@ pub fn families(quick: bool) -> Vec<Family> {
     if quick {
         vec![
             Family { name: "npo-1perm-1alu-1conn", max_perm: 1, chained: false, min_alu: 1, max_alu: 1, kinds: all.clone(), wide_operands: true, fed_inputs: true, coeffs: false, bits: false, max_conn: 1, max_recomp: 0, max_coeff_stmts: 1, q2: false, min_perm: 1, min_recomp: 0 },
-            Family { name: "npo-1perm-2alu-submuldiv-1conn", max_perm: 1, chained: false, min_alu: 2, max_alu: 2, kinds: vec![Sub, Mul, Div], wide_operands: false, fed_inputs: false, coeffs: false, bits: false, max_conn: 1, max_recomp: 0, max_coeff_stmts: 1, q2: false, min_perm: 1, min_recomp: 0 },
             Family { name: "npo-2perm-1alu-submul-1conn", max_perm: 2, chained: true, min_alu: 1, max_alu: 1, kinds: vec![Sub, Mul], wide_operands: false, fed_inputs: false, coeffs: false, bits: false, max_conn: 1, max_recomp: 0, max_coeff_stmts: 1, q2: false, min_perm: 1, min_recomp: 0 },
             Family { name: "npo-1perm-coeffs-1alu-submul-1conn", max_perm: 1, chained: false, min_alu: 1, max_alu: 1, kinds: vec![Sub, Mul], wide_operands: false, fed_inputs: false, coeffs: true, bits: false, max_conn: 1, max_recomp: 0, max_coeff_stmts: 1, q2: false, min_perm: 1, min_recomp: 0 },
-            Family { name: "npo-2recomp-0or1perm-le1alu-1conn", max_perm: 1, chained: false, min_alu: 0, max_alu: 1, kinds: vec![Sub, Mul], wide_operands: false, fed_inputs: false, coeffs: true, bits: false, max_conn: 1, max_recomp: 2, max_coeff_stmts: 2, q2: false, min_perm: 0, min_recomp: 1 },
+            Family { name: "npo-2recomp-0or1perm-le1alu-1conn", max_perm: 1, chained: false, min_alu: 0, max_alu: 1, kinds: vec![Sub, Mul], wide_operands: false, fed_inputs: false, coeffs: false, bits: false, max_conn: 1, max_recomp: 2, max_coeff_stmts: 2, q2: false, min_perm: 0, min_recomp: 1 },
+            Family { name: "npo-coeffs+recomp-0or1perm-0alu-1conn", max_perm: 1, chained: false, min_alu: 0, max_alu: 0, kinds: vec![], wide_operands: false, fed_inputs: false, coeffs: true, bits: false, max_conn: 1, max_recomp: 1, max_coeff_stmts: 2, q2: false, min_perm: 0, min_recomp: 1 },
             Family { name: "npo-1perm-bits-1alu-0conn", max_perm: 1, chained: false, min_alu: 1, max_alu: 1, kinds: vec![Sub, Mul], wide_operands: false, fed_inputs: false, coeffs: false, bits: true, max_conn: 0, max_recomp: 0, max_coeff_stmts: 1, q2: false, min_perm: 1, min_recomp: 0 },
+            // the largest family last: on a slow machine it is the one that gets cut
+            Family { name: "npo-1perm-2alu-submuldiv-1conn", max_perm: 1, chained: false, min_alu: 2, max_alu: 2, kinds: vec![Sub, Mul, Div], wide_operands: false, fed_inputs: false, coeffs: false, bits: false, max_conn: 1, max_recomp: 0, max_coeff_stmts: 1, q2: false, min_perm: 1, min_recomp: 0 },
         ]
     } else {
         let sd = vec![Sub, Mul, Div];
